@@ -186,6 +186,13 @@ Theorem C08_short_circuit_is_503 : forall pol now h c b,
 Proof. exact short_circuit_503. Qed.
 Print Assumptions C08_short_circuit_is_503.
 
+(** ... for every request shape: stream or buffered body, with or without a retry policy *)
+Theorem C08_short_circuit_every_shape : forall pol now h c retry stream b,
+  (fst (cb_acquire pol now c) = false -> pool_contacts retry stream (fst (wrap_call pol now h c)) b = 0) /\
+  (fst (cb_acquire pol now c) = true -> 1 <= pool_contacts retry stream (fst (wrap_call pol now h c)) b).
+Proof. exact short_circuit_every_shape. Qed.
+Print Assumptions C08_short_circuit_every_shape.
+
 (** *** non-vacuity: a concrete history that opens at the exact 50% boundary (time window,
     minimum 2), short-circuits, re-enters HALF_OPEN after the wait, admits exactly 2 trials,
     ignores a stale result and recovers; the hypotheses of the theorems above hold along it *)
